@@ -2522,7 +2522,8 @@ class Circuit(Unitary, StateVectorMap, Collection[Operation]):
         ops: list[tuple[int, Operation]] = list()
         for point in points:
             try:
-                ops.append((point[0], self.get_operation(point)))
+                op = self.get_operation(point)
+                ops.append((self.normalize_point(point)[0], op))
             except IndexError:
                 continue
 
